@@ -150,14 +150,17 @@ def scenarios():
     S = {}
 
     def add(name, clients, server="echo", retry=False, spoof=False, complete=True,
-            cidle=None, sidle=None, server_close_end=False, tier="quick"):
+            cidle=None, sidle=None, server_close_end=False, tier="quick", replay=False):
         S[name] = dict(name=name, clients=clients, server=server, retry=retry, spoof=spoof,
                        complete=complete, cidle=cidle, sidle=sidle,
-                       server_close_end=server_close_end, tier=tier)
+                       server_close_end=server_close_end, tier=tier, replay=replay)
 
     # echo over one stream, write x2 + write_eof; wait_connected() a second time
     add("echo1", [client([("wait_connected",)] + ECHO + [("ping",)])], server_close_end=True)
     add("echo1_retry", [client(ECHO)], retry=True, spoof=True)
+    # late copies of the client's handshake datagrams (same source address) may arrive at any later point,
+    # also after the server has let go of the connection: each makes the server create state again
+    add("echo1_late_copies", [client(ECHO)], replay=True, sidle=5.0, server_close_end=True)
     # two streams, writelines on the second one, reads in parallel
     # (create_stream() hands out the same stream ID until the first one was written to)
     add("echo2", [client([("open", 0), ("write", 0, A), ("open", 1), ("writelines", 1, [A, b"|", A[:9]]),
@@ -354,6 +357,19 @@ class World:
     async def server_closer(self):
         for c in self.clients:
             await c.task
+        if self.sc.get("replay"):
+            # the server keeps listening for a while after its clients are done (late copies may still arrive);
+            # long enough for any connection state created meanwhile to reach its idle timeout
+            await asyncio.sleep(3 * (self.sc.get("sidle") or 60.0))
+            leftover = [p for p in self.sprotos if p.v_terminated is None
+                        and any(q is p for q in self.server._protocols.values())]
+            if leftover:
+                self.violate(
+                    "routing.entry_never_released",
+                    "%d server connection(s) (%s) still have routing entries three idle periods after the last "
+                    "datagram arrived" % (len(leftover), ", ".join(p.v_name for p in leftover)),
+                    api="QuicServer", state="lingering",
+                )
         self.note("server.close()")
         self.server.close()
 
@@ -615,6 +631,13 @@ class World:
             if kind == "retry":
                 self.tokens[token] = d.dst
                 self.note("server sends Retry to %s" % self.net.names.get(d.dst, d.dst))
+        elif self.sc.get("replay") and d.dst == SADDR:
+            # a late copy of one of the client's own handshake datagrams, from the client's own address
+            kind, dcid, token = peek(d.data)
+            if kind == "initial" and len(d.data) >= 1200:
+                n = sum(1 for sp in self.net.spoofable if sp[0].startswith("late_copy"))
+                if n < 3:
+                    self.net.spoofable.append(["late_copy_of_client_datagram_%d" % n, d.data, d.src, SADDR, 1, "when_idle"])
         elif self.sc["spoof"] and d.dst == SADDR:
             kind, dcid, token = peek(d.data)
             if kind == "initial":
@@ -694,6 +717,18 @@ class World:
         sc = self.sc
         self.over = True
         self.check_stale("end of run")
+        if reason == "quiescent":
+            # nothing is in flight and no timer is armed any more: whatever the server still routes now, it
+            # routes for ever
+            immortal = [p for p in self.sprotos if p.v_terminated is None
+                        and any(q is p for q in self.server._protocols.values())]
+            if immortal:
+                self.violate(
+                    "routing.entry_never_released",
+                    "%d server connection(s) (%s) still have routing entries although nothing is in flight and no timer "
+                    "is armed: that state can never be released" % (len(immortal), ", ".join(p.v_name for p in immortal)),
+                    api="QuicServer", state="no_timer",
+                )
         # (2) waiters
         for who, op, res, started in self.ledger:
             if res == "pending":
